@@ -507,7 +507,7 @@ func TestEncodingAPI(t *testing.T) {
 	ctx := context.Background()
 	tmp := t.TempDir()
 	n := 0
-	r.Check(t, r.Scale(640, 24000), 1, func(t *rapid.T) {
+	r.Check(t, r.Scale(640, 16000), 1, func(t *rapid.T) {
 		n++
 		src, _ := genSrc(t, r.Thorough())
 		c := &EncCase{Kind: "enc-api", Src: src}
@@ -659,7 +659,7 @@ func firstLines(s string, n int) string {
 func TestEncodingCLI(t *testing.T) {
 	r := evid.R()
 	ctx := context.Background()
-	r.Check(t, r.Scale(72, 2800), 2, func(t *rapid.T) {
+	r.Check(t, r.Scale(72, 2000), 2, func(t *rapid.T) {
 		src, _ := genSrc(t, false)
 		c := &EncCase{Kind: "enc-cli", Src: src}
 		genEncCommon(t, c)
